@@ -36,6 +36,8 @@ def run(ctx, facts):
             if not m.get("recv_ty", "").startswith("&mut "):
                 continue
             n += 1
+            if name == "reset":
+                continue     # whatever reset does to v is checked by RESET (it must re-establish Iota over the full range)
             if name == "next" and m["name"] == "swap":
                 ctx.ok("WRITERS", fid, "v.swap(%s)" % ", ".join(nf.nf(a) for a in m["args"]), hirq.loc(m))
             else:
